@@ -93,6 +93,8 @@ impl Case {
 
 /// The three files of a fixture: bytes + the records as constructed.
 pub struct Fixture {
+    /// layout 3: (byte offset, bytes) of the header and of every record on the sparse source
+    pub far: Vec<(u64, Vec<u8>)>,
     pub shp: Vec<u8>,
     pub shx: Vec<u8>,
     pub dbf: Vec<u8>,
@@ -126,6 +128,27 @@ pub fn fixture(ty: Ty, layout: u8) -> Fixture {
         }
     }
     let recs: Vec<MRead> = libs.iter().map(from_lib).collect();
+    if layout == 3 {
+        use crate::refmodel::codec::{self, MBody};
+        let offs = [3 * (1u64 << 30) + 512, 100u64, (1u64 << 31) + 65536];
+        let mut hdr = codec::encode_header(0, ty.code(), &[0.0; 8]);
+        hdr[24..28].copy_from_slice(&(((((1u64 << 32) - 2) / 2) as u32) as i32).to_be_bytes());
+        let mut far = vec![(0u64, hdr)];
+        let mut shx = codec::encode_header(50 + 12, ty.code(), &[0.0; 8]);
+        for (i, r) in recs.iter().enumerate() {
+            let body = MBody::Shape { shape: r.shape.clone(), bbox: r.bbox.unwrap_or(codec::true_bbox(&r.shape)), with_m: true };
+            let mut f = vec![];
+            let content = codec::encode_content(&body, &mut f, 0, 0);
+            let mut d = vec![];
+            d.extend((i as i32 + 1).to_be_bytes());
+            d.extend(((content.len() / 2) as i32).to_be_bytes());
+            shx.extend(((offs[i] / 2) as u32 as i32).to_be_bytes());
+            shx.extend(((content.len() / 2) as i32).to_be_bytes());
+            d.extend(content);
+            far.push((offs[i], d));
+        }
+        return Fixture { far, shp: vec![], shx, dbf: c.data(), recs };
+    }
     if layout == 2 {
         // the same records, stored out of order with fillers, located by the index alone
         use crate::refmodel::codec::{self, MBody, MRecord};
@@ -161,9 +184,9 @@ pub fn fixture(ty: Ty, layout: u8) -> Fixture {
             shx.extend(((offs[i] / 2) as i32).to_be_bytes());
             shx.extend(((lens[i] / 2) as i32).to_be_bytes());
         }
-        return Fixture { shp, shx, dbf: c.data(), recs };
+        return Fixture { far: vec![], shp, shx, dbf: c.data(), recs };
     }
-    Fixture { shp: a.data(), shx: b.data(), dbf: c.data(), recs }
+    Fixture { far: vec![], shp: a.data(), shx: b.data(), dbf: c.data(), recs }
 }
 
 /// One observed answer.
@@ -178,6 +201,37 @@ pub enum Ans {
 
 fn which(recs: &[MRead], got: &MRead) -> Result<usize, String> {
     recs.iter().position(|r| super::c01_c02::cmp_read(r, got).is_none()).ok_or_else(|| "a shape that is not in the file".to_string())
+}
+
+fn take_items(it: &mut dyn Iterator<Item = Result<usize, String>>, j: usize) -> Ans {
+    let mut v = vec![];
+    let mut ended = false;
+    let want = if j == ALL { N + 3 } else { j };
+    while v.len() < want {
+        match it.next() {
+            None => {
+                ended = true;
+                break;
+            }
+            Some(x) => v.push(x),
+        }
+    }
+    Ans::Items(v, ended)
+}
+
+fn drive<T: std::io::Read + std::io::Seek>(r: &mut ShapeReader<T>, ops: &[ROp], recs: &[MRead], out: &mut Vec<Ans>) {
+    for op in ops {
+        out.push(match op {
+            ROp::Iter(j) => {
+                let mut it = r.iter_shapes().map(|x| x.map_err(|e| err_kind(&e)).and_then(|s| which(recs, &from_lib(&s))));
+                take_items(&mut it, *j)
+            }
+            ROp::Nth(i) => Ans::Nth(r.read_nth_shape(*i).map(|x| x.map_err(|e| err_kind(&e)).and_then(|s| which(recs, &from_lib(&s))))),
+            ROp::Seek(k) => Ans::Unit(r.seek(*k).map_err(|e| err_kind(&e))),
+            ROp::Count => Ans::Count(r.shape_count().map_err(|e| err_kind(&e))),
+            ROp::ReadAll => unreachable!(),
+        });
+    }
 }
 
 pub fn observe(case: &Case, fx: &Fixture) -> Vec<Ans> {
@@ -205,24 +259,18 @@ pub fn observe(case: &Case, fx: &Fixture) -> Vec<Ans> {
         Ans::Items(v, ended)
     };
     match case.kind {
+        Kind::ShapeReaderShx if case.layout == 3 => {
+            // the records live beyond 2 GiB and 3 GiB on a sparse source
+            let mut r = ShapeReader::with_shx(crate::sparse::Sparse { chunks: fx.far.clone(), len: (1u64 << 32) - 2, filler: 0xEE, pos: 0 }, Dev::quiet(fx.shx.clone())).expect("open");
+            drive(&mut r, &case.ops, &fx.recs, &mut out);
+        }
         Kind::ShapeReaderShx | Kind::ShapeReaderNoShx => {
             let mut r = if case.kind == Kind::ShapeReaderShx {
                 ShapeReader::with_shx(src(&fx.shp), src(&fx.shx)).expect("open")
             } else {
                 ShapeReader::new(src(&fx.shp)).expect("open")
             };
-            for op in &case.ops {
-                out.push(match op {
-                    ROp::Iter(j) => {
-                        let mut it = r.iter_shapes().map(|x| x.map_err(|e| err_kind(&e)).and_then(|s| which(&fx.recs, &from_lib(&s))));
-                        collect_items(&mut it, *j)
-                    }
-                    ROp::Nth(i) => Ans::Nth(r.read_nth_shape(*i).map(|x| x.map_err(|e| err_kind(&e)).and_then(|s| which(&fx.recs, &from_lib(&s))))),
-                    ROp::Seek(k) => Ans::Unit(r.seek(*k).map_err(|e| err_kind(&e))),
-                    ROp::Count => Ans::Count(r.shape_count().map_err(|e| err_kind(&e))),
-                    ROp::ReadAll => unreachable!(),
-                });
-            }
+            drive(&mut r, &case.ops, &fx.recs, &mut out);
         }
         Kind::Complete => {
             let sr = ShapeReader::with_shx(src(&fx.shp), src(&fx.shx)).expect("open");
@@ -405,14 +453,14 @@ pub fn check(tier: Tier) -> i32 {
     let types: Vec<Ty> = tier.pick(vec![Ty::PointM, Ty::Polyline, Ty::PolygonZ, Ty::Multipatch], vec![Ty::Point, Ty::PointZ, Ty::Polyline, Ty::PolylineM, Ty::PolygonZ, Ty::MultipointZ, Ty::Multipatch]);
     let mut fxs = vec![];
     for t in &types {
-        fxs.push([fixture(*t, 0), fixture(*t, 1), fixture(*t, 2)]);
+        fxs.push([fixture(*t, 0), fixture(*t, 1), fixture(*t, 2), fixture(*t, 3)]);
     }
     let fxs = Arc::new(fxs);
     let mut inits = vec![];
     for k in 0..3u8 {
-        for e in 0..3u8 {
-            // the gapped / permuted layout needs the index
-            if e == 2 && k == 2 {
+        for e in 0..4u8 {
+            // the gapped / permuted layout needs the index; the far-offset layout is driven through ShapeReader with index
+            if (e == 2 && k == 2) || (e == 3 && k != 0) {
                 continue;
             }
             for t in 0..types.len() as u8 {
@@ -461,7 +509,7 @@ pub fn check(tier: Tier) -> i32 {
             tier,
             level: "model_checking",
             engine: "E1 stateright BFS over reader call histories on the real ShapeReader / Reader; oracle = set-valued cursor model (RefReader)",
-            rule: "every sequence up to the depth bound over {Iter(0), Iter(1), Iter(2), Iter(all), Nth(0..3), Seek(0..3), Count} (ShapeReader with index, 13 actions), {Iter*, Seek*, Count, ReadAll} (complete Reader, 10 actions), {Iter*, Nth(0), Seek(0), Count} (ShapeReader without index: the last three must answer MissingIndexFile) x files of 3 records with pairwise different sizes, with equal sizes, and (readers with an index) stored out of order with fillers between them behind sources returning at most 3 bytes per read, x types; non-trivial = >= 2 operations",
+            rule: "every sequence up to the depth bound over {Iter(0), Iter(1), Iter(2), Iter(all), Nth(0..3), Seek(0..3), Count} (ShapeReader with index, 13 actions), {Iter*, Seek*, Count, ReadAll} (complete Reader, 10 actions), {Iter*, Nth(0), Seek(0), Count} (ShapeReader without index: the last three must answer MissingIndexFile) x files of 3 records with pairwise different sizes, with equal sizes, and (readers with an index) stored out of order with fillers between them behind sources returning at most 3 bytes per read, and (ShapeReader with index) at byte offsets beyond 2^31 and 3*2^30 on a sparse source, x types; non-trivial = >= 2 operations",
             bounds: json!({"depth": depth, "records": N, "types": types.iter().map(|t| t.name()).collect::<Vec<_>>()}),
             exhaustive: true,
             assumptions: vec!["the model is non-deterministic after a partial iteration exactly as the statement is: a further iteration may continue or restart".into()],
